@@ -26,6 +26,7 @@ import (
 	"github.com/getkin/kin-openapi/openapi3"
 	"github.com/vkd/goag"
 	"github.com/vkd/goag/generator"
+	"github.com/vkd/goag/specification"
 )
 
 // Job is one invocation of the generator.
@@ -33,6 +34,7 @@ type Job struct {
 	ID       string `json:"id"`
 	Spec     []byte `json:"spec"`          // document handed to the loader
 	Raw      []byte `json:"raw,omitempty"` // bytes handed to Generate as specRaw (default: Spec)
+	RawSet   bool   `json:"rawSet,omitempty"` // Raw is meaningful even when empty
 	OutDir   string `json:"outDir"`
 	Package  string `json:"package,omitempty"`
 	Client   bool   `json:"client,omitempty"`
@@ -48,6 +50,9 @@ type Job struct {
 	Registry  bool `json:"registry,omitempty"`  // write zz_registry.go for the batch driver
 	Impl      bool `json:"impl,omitempty"`      // compute response-interface implementer sets (C02)
 	SpecConst bool `json:"specConst,omitempty"` // evaluate the SpecFile constant (C13)
+	Raws      [][]byte `json:"raws,omitempty"`  // spec-file-only mode: contents to embed (C13 thorough)
+	Steps     []Step            `json:"steps,omitempty"` // history mode (C19)
+	Init      map[string]string `json:"init,omitempty"`  // history mode: initial directory content
 }
 
 const (
@@ -76,6 +81,8 @@ type Result struct {
 	Ctors     map[string]string   `json:"ctors,omitempty"`     // exported func New* -> result type name
 	SpecConst *string             `json:"specConst,omitempty"` // value of the SpecFile constant
 	SpecConstErr string           `json:"specConstErr,omitempty"`
+	SpecFiles []SpecFileResult    `json:"specFiles,omitempty"`
+	Hist      *HistResult         `json:"hist,omitempty"`
 }
 
 func (r *Result) Healthy() bool {
@@ -107,8 +114,11 @@ func Run(j *Job) (res *Result) {
 		return res
 	}
 	raw := j.Raw
-	if raw == nil {
+	if raw == nil && !j.RawSet {
 		raw = j.Spec
+	}
+	if raw == nil {
+		raw = []byte{}
 	}
 	pkg := j.Package
 	if pkg == "" {
@@ -292,4 +302,69 @@ func staticOracles(j *Job, res *Result, files map[string][]byte, pkgName string)
 			res.Msg = "registry: " + err.Error()
 		}
 	}
+}
+
+// SpecFileJob renders only spec_file.go for each raw content, through the same two calls
+// Generate makes (Generator.SpecFile + goag.WriteToFile), and evaluates the SpecFile constant.
+type SpecFileResult struct {
+	OK    bool   `json:"ok"`    // file parsed, type-checked and the constant equals the input
+	Class string `json:"class"` // "" | not-go | type-error | differs | write-error
+	Msg   string `json:"msg,omitempty"`
+	Got   string `json:"got,omitempty"`
+}
+
+func RunSpecFiles(j *Job, raws [][]byte) (out []SpecFileResult, err error) {
+	sw, err := openapi3.NewSwaggerLoader().LoadSwaggerFromData(j.Spec)
+	if err != nil {
+		return nil, err
+	}
+	sp, err := specification.ParseSwagger(sw, specification.SchemaOptions{})
+	if err != nil {
+		return nil, err
+	}
+	gen, err := generator.NewGenerator(sp, generator.Config{}, generator.PackageName("gen"),
+		generator.IfOption(generator.SkipDoNotEdit(), !j.DoNotEdit), generator.BasePath(""), generator.SpecFilename("openapi.yaml"))
+	if err != nil {
+		return nil, err
+	}
+	os.MkdirAll(j.OutDir, 0o755)
+	fn := filepath.Join(j.OutDir, "spec_file.go")
+	for _, raw := range raws {
+		var r SpecFileResult
+		func() {
+			defer func() {
+				if p := recover(); p != nil {
+					r.Class, r.Msg = "panic", fmt.Sprint(p)
+				}
+			}()
+			if err := goag.RenderToFile(fn, gen.SpecFile(raw)); err != nil {
+				r.Class, r.Msg = "write-error", err.Error()
+				return
+			}
+			bs, _ := os.ReadFile(fn)
+			r = JudgeSpecFile(bs, raw)
+		}()
+		out = append(out, r)
+	}
+	return out, nil
+}
+
+// JudgeSpecFile: spec_file.go must parse, type-check and define a constant SpecFile equal to raw.
+func JudgeSpecFile(src, raw []byte) (r SpecFileResult) {
+	_, _, pkg, _, se, te := TypeCheck(map[string][]byte{"spec_file.go": src})
+	if len(se) > 0 {
+		return SpecFileResult{Class: "not-go", Msg: se[0]}
+	}
+	if len(te) > 0 || pkg == nil {
+		return SpecFileResult{Class: "type-error", Msg: strings.Join(te, "; ")}
+	}
+	c, ok := pkg.Scope().Lookup("SpecFile").(*types.Const)
+	if !ok {
+		return SpecFileResult{Class: "type-error", Msg: "no SpecFile constant"}
+	}
+	got := constString(c)
+	if got != string(raw) {
+		return SpecFileResult{Class: "differs", Got: got}
+	}
+	return SpecFileResult{OK: true}
 }
